@@ -60,6 +60,7 @@ type vfPlan struct {
 }
 
 type vfSession struct {
+	FedState, FedCode, FedCodeUsed string // federated login in progress (state sent to the provider, code received from it)
 	Name    string
 	Cookies map[string]string
 	Peer    string
